@@ -30,7 +30,7 @@
     NNG_EAGAIN.
 -/
 import NngModel.Proto.Base
-import NngModel.Generated.Consts
+import NngModel.Generated.C04REP
 namespace Nng.RepSpec
 open Nng Nng.Proto
 
